@@ -285,6 +285,14 @@ def rule_cases(seed, tier):
             cs = [a]
             for _ in range(3):
                 cs.append(cs[-1] * ad // sb + r)
+        elif m < 0.8:
+            # counts at and beyond the i32/u32 widths with SMALL true differences: Rust's wrapping `as i32` cast still gives
+            # the right difference there, so the two implementations must agree (after seeded change C17-m7: saturating cast)
+            a = rng.choice([2 ** 31 - 8, 2 ** 31, 2 ** 31 + 5, 2 ** 32 - 4, 2 ** 32, 2 ** 32 + 9, 3 * 2 ** 31, 2 ** 40, 2 ** 52 + 1]) + rng.randint(0, 40)
+            d = rng.randint(-9, 9)
+            cs = [a, a + d, a + 2 * d, a + 3 * d]
+            if rng.random() < 0.15:
+                cs[rng.randrange(4)] += rng.randint(-2, 2)
         else:
             cs = [rnd_count(rng) for _ in range(4)]
         diff.append((f'd{i}', [max(0, c) for c in cs]))
@@ -349,14 +357,17 @@ def check_rules(root, seed, tier, diffs, fails, dist):
         if a != b:
             diffs.append((cid, rest, a, b, 'tm/rules.py (real) = PyRulesModel'))
     # Python vs Rust where the theorems speak: additive, in range
-    rl_lines = [f'{i}|mkrule|{cs[0]}/|{cs[1]}/|{cs[2]}/|{cs[3]}/' for i, cs in diff if max(cs) < 2 ** 31]
+    def in_range(cs):     # every count below 2^31, or every pairwise difference small (the wrapped casts then differ exactly as the counts do)
+        return max(cs) < 2 ** 31 or (max(cs) - min(cs) < 2 ** 20 and max(cs) < 2 ** 63
+                                     and len({(c + 2 ** 31) // 2 ** 32 for c in cs}) == 1)     # no i32 sign boundary between them
+    rl_lines = [f'{i}|mkrule|{cs[0]}/|{cs[1]}/|{cs[2]}/|{cs[3]}/' for i, cs in diff if in_range(cs)]
     additive = [(i, tp, rl, l, r) for i, tp, rl, l, r in app
                 if '*' not in rl and max([n for _, n in l + r] + [0]) < 2 ** 32]
     rl_lines += [f'{i}|apply|{tp}|{rl}' for i, tp, rl, _, _ in additive]
     rs = core.run_bbh(rl_lines)
     ncmp = 0
     for i, cs in diff:
-        if max(cs) >= 2 ** 31:
+        if not in_range(cs):
             continue
         p, r = py.get(i, ''), rs.get(i, '')
         pv = 'same' if p == 'none' else (p if p[:1] in '+-' else 'other')
@@ -366,7 +377,7 @@ def check_rules(root, seed, tier, diffs, fails, dist):
         if pv != rv:
             fails.append({'kind': 'property-failure', 'component': 'additive difference inference',
                           'counts': cs, 'python_calculate_diff': p, 'rust_make_rule_one_block': r,
-                          'why': f'Python reads {pv}, Rust reads {rv} (counts below 2^31)'})
+                          'why': f'Python reads {pv}, Rust reads {rv} (counts below 2^31, or differences below 2^20)'})
     for i, tp, rl, l, r in additive:
         p, q = py.get(i, ''), rs.get(i, '')
         ncmp += 1
@@ -435,6 +446,8 @@ def run_cases(seed, tier):
     ers = gen.eraser_compositions()
     for i, p in enumerate(ers):
         cs.append((f'e{i}_1000', p, 1000))
+    for i, (p, lim) in enumerate(gen.REGRESSION_PROVER):
+        cs.append((f'g{i}_{lim}', p, lim))
     dist = {'named_machines': len(named), 'eraser_compositions': len(ers),
             'tree_leaves_2x2_to_4x2_2x4_used': len(rand),
             'tree_leaf_totals(sim_lim 100)': totals,
